@@ -1369,7 +1369,30 @@ class X:
         r = self.contract.genexp_hook(self, e)
         if r is not None:
             return r
-        raise Unsupported('list comprehension')
+        # comprehension over iterables of statically known length: plain unrolling (its own scope for the targets)
+        saved = dict(self.env)
+        try:
+            out = []
+
+            def rec(gi):
+                if gi == len(e.generators):
+                    out.append(self.eval(e.elt))
+                    return
+                g = e.generators[gi]
+                if g.is_async:
+                    raise Unsupported('async comprehension')
+                it = self.eval_iter(g.iter)
+                if it[0] != 'concrete':
+                    raise Unsupported('list comprehension over an iterable of unknown length')
+                for item in it[1]:
+                    self.assign(g.target, item)
+                    if all(self.decide(self.truth(self.eval(c))) for c in g.ifs):
+                        rec(gi + 1)
+            rec(0)
+            return VList(out)
+        finally:
+            self.env.clear()
+            self.env.update(saved)
 
     def ex_DictComp(self, e):
         r = self.contract.genexp_hook(self, e)
